@@ -219,7 +219,7 @@ func (w Win) embedExtList(ms []ID) []string {
 	for i, m := range ms {
 		out[i] = w.E(m).String()
 	}
-	return out
+	return spare(out)
 }
 
 func (w Win) embedSpList(ms []ID) []string {
@@ -227,7 +227,7 @@ func (w Win) embedSpList(ms []ID) []string {
 	for i, m := range ms {
 		out[i] = w.E(m).Sp()
 	}
-	return out
+	return spare(out)
 }
 
 func idsArr(ms []ID) []any {
